@@ -65,7 +65,7 @@ def gen_world(rs):
         # instance positions: the species template shifted; file resids/atom ids run on
         shifts = np.round(rs.uniform(-4, 4, size=(len(inst), 3)), 3).tolist()
         system = {"species": species, "instances": inst, "shifts": shifts}
-    return {"mols": mols, "system": system}
+    return {"mols": mols, "system": system, "nali": int(rs.choice([0, 1, 1, 2]))}
 
 
 def sorted_bonds(n, bonds):
@@ -142,6 +142,10 @@ def build_impl(world):
         sysobj = System(gro, *itps)
         assert len(sysobj) == len(sy["instances"]), "generated system not recognised as generated"
         fam.append(Hd("S", sysobj, len(fam), len(fam), nsp=len(sy["instances"])))
+    from gaddlemaps import Alignment
+    for _ in range(world.get("nali", 0)):
+        fam.append(Hd("L", Alignment(), len(fam), len(fam)))
+        fam[-1].ends = {"start": None, "end": None}
     return fam
 
 
@@ -155,21 +159,33 @@ def top_obs(t):
     return (str(t.name), str(t.resname), int(t.resid), int(t.index), tuple(sorted(int(b) for b in t.bonds)))
 
 
-def observe(h, world):
-    """(names, tops, gros, getters) as plain python data"""
+def observe(h, world, fam=None):
+    """(names, tops, gros, getters, alignment ends) as plain python data"""
     o = h.obj
     if h.kind == "G":
-        return ((), (), ((gro_obs(o),),), None)
+        return ((), (), ((gro_obs(o),),), None, None)
     if h.kind == "R":
-        return ((), (), (tuple(gro_obs(a) for a in o._atoms_gro),), None)
+        return ((), (), (tuple(gro_obs(a) for a in o._atoms_gro),), None, None)
     if h.kind == "A":
-        return ((), (top_obs(o.atom_top),), ((gro_obs(o.atom_gro),),), None)
+        return ((), (top_obs(o.atom_top),), ((gro_obs(o.atom_gro),),), None, None)
+    if h.kind == "L":
+        ends = []
+        for side in ("start", "end"):
+            m = getattr(o, side)
+            if m is None:
+                ends.append(None)
+            else:
+                idx = [j for j, x in enumerate(fam) if x.obj is m]
+                if not idx:
+                    raise AssertionError("Alignment.%s returns a molecule that was never handed out" % side)
+                ends.append(idx[0])
+        return ((), (), (), None, tuple(ends))
     if h.kind == "M":
         gros = tuple(tuple(gro_obs(a) for a in res._atoms_gro) for res in o.residues)
         mt = o.molecule_top
         vel = o.atoms_velocities
         get = (tuple(int(x) for x in o.resids), tuple(str(x) for x in o.resnames),
-               tuple(int(x) for x in o.atoms_ids), vel is None)
+               tuple(int(x) for x in o.atoms_ids), vel is None, tuple(float(x) for x in o.geometric_center))
         # the array getters must be the concatenation of what the atoms hold
         flat = [a for res in gros for a in res]
         ap = o.atoms_positions
@@ -179,14 +195,14 @@ def observe(h, world):
             raise AssertionError("atoms_velocities is not the concatenation of the atoms' velocities")
         if len(o) != len(flat):
             raise AssertionError("len(molecule) differs from its number of atoms")
-        return ((str(mt.name),), tuple(top_obs(t) for t in mt.atoms), gros, get)
+        return ((str(mt.name),), tuple(top_obs(t) for t in mt.atoms), gros, get, None)
     if h.kind == "S":
         names, tops = [], []
         for s in world["system"]["instances"]:
             mt = o.different_molecules[s].molecule_top
             names.append(str(mt.name))
             tops += [top_obs(t) for t in mt.atoms]
-        return (tuple(names), tuple(tops), (), None)
+        return (tuple(names), tuple(tops), (), None, None)
     raise ValueError(h.kind)
 
 
@@ -231,6 +247,16 @@ def apply_op(fam, op):
         elif k == "handout":
             x = o[op["i"]]
             new = Hd("M", x, nroot, h.troot, sizes=[len(r) for r in x.residues])
+        elif k == "ali_set":
+            side = op["side"]
+            if op["j"] is None:
+                setattr(o, side, None)
+                h.ends[side] = None
+            else:
+                src = fam[op["j"]]
+                setattr(o, side, src.obj)
+                new = Hd("M", getattr(o, side), nroot, src.troot, sizes=src.sizes)
+                h.ends[side] = nroot
         elif k == "move":
             o.move(np.array(op["v"], dtype=float))
         elif k == "move_to":
@@ -279,7 +305,7 @@ def apply_op(fam, op):
     return 0, new
 
 
-COPYLIKE = {"copy", "deep_copy", "align", "atoms", "handout"}
+COPYLIKE = {"copy", "deep_copy", "align", "atoms", "handout", "ali_set"}
 MUTATING = {"move", "move_to", "rotate", "set_positions", "set_velocities", "set_ids", "set_resids_all", "set_resids",
             "set_resnames_all", "set_resnames", "set_molname", "set_pos", "set_vel", "set_atomid", "set_resid",
             "set_top_resid", "set_resname", "set_name"}
@@ -305,11 +331,29 @@ def rrot(rs):
 def gen_op(rs, fam):
     """draw one applicable operation for a random live handle"""
     full = len(fam) >= MAXFAM
+    alis = [i for i, x in enumerate(fam) if x.kind == "L"]
     for _ in range(50):
         hi = int(rs.randint(0, len(fam)))
+        if alis and not full and rs.randint(0, 14) == 0:
+            hi = int(rs.choice(alis))
         h = fam[hi]
         n = h.n
         w = {}
+        if h.kind == "L":
+            if full:
+                continue
+            side = str(rs.choice(["start", "end"]))
+            mols = [i for i, x in enumerate(fam) if x.kind == "M"]
+            r = rs.randint(0, 20)
+            if r == 0:
+                return {"h": hi, "op": "ali_set", "side": side, "j": None}
+            if r == 1:
+                return {"h": hi, "op": "ali_set", "side": side, "j": int(rs.randint(0, len(fam)))}   # any kind: TypeError
+            cur = h.ends[side]
+            same = [i for i in mols if cur is not None and fam[i].troot == fam[cur].troot]
+            if same and rs.randint(0, 3):
+                return {"h": hi, "op": "ali_set", "side": side, "j": int(rs.choice(same))}    # re-assignment of an equal molecule
+            return {"h": hi, "op": "ali_set", "side": side, "j": int(rs.choice(mols))}
         if h.kind == "S":
             if full:
                 continue
@@ -434,8 +478,15 @@ class Oracle:
         k = op["op"]
         after = [snap(x) for x in fam]
         # 1. isolation: nothing outside the copy family of the handle operated on changes
+        for j, y in enumerate(fam):
+            # the geometric centre a residue / molecule reports is the mean of the coordinates it reports
+            if y.kind in "RM":
+                gc, P = np.array(y.obj.geometric_center, dtype=float), np.array(y.obj.atoms_positions, dtype=float)
+                if np.abs(gc - P.mean(axis=0)).max() > TOL:
+                    self.bad.append("step %d (%s on handle %d): geometric_center of handle %d is %.3g away from the mean of "
+                                    "its atoms_positions" % (step, k, op["h"], j, np.abs(gc - P.mean(axis=0)).max()))
         for j, y in enumerate(fam[:len(self.before)]):
-            if y.kind == "S":
+            if y.kind in "SL":
                 continue
             b_co, b_lab = self.before[j]
             a_co, a_lab = after[j]
@@ -510,12 +561,13 @@ def top_term(t):
 
 
 def obs_term(o):
-    names, tops, gros, get = o
-    g = "None" if get is None else "(Some (%s, %s, %s, %s))" % (
+    names, tops, gros, get, ali = o
+    g = "None" if get is None else "(Some (%s, %s, %s, %s, %s))" % (
         coq_list([coq_z(x) for x in get[0]]), coq_list([cstr(x) for x in get[1]]),
-        coq_list([coq_z(x) for x in get[2]]), "true" if get[3] else "false")
-    return "(mkObs %s %s %s %s)" % (coq_list([cstr(x) for x in names]), coq_list([top_term(t) for t in tops]),
-                                    coq_list([coq_list([gro_term(c) for c in r]) for r in gros]), g)
+        coq_list([coq_z(x) for x in get[2]]), "true" if get[3] else "false", v3(get[4]))
+    a = "None" if ali is None else "(Some (%s, %s))" % tuple("None" if x is None else "(Some %s)" % nat(x) for x in ali)
+    return "(mkObs %s %s %s %s %s)" % (coq_list([cstr(x) for x in names]), coq_list([top_term(t) for t in tops]),
+                                       coq_list([coq_list([gro_term(c) for c in r]) for r in gros]), g, a)
 
 
 def op_term(fam_kinds, op):
@@ -536,6 +588,9 @@ def op_term(fam_kinds, op):
         return "(OResView %s)" % nat(op["i"])
     if k == "handout":
         return "(OHandout %s)" % nat(op["i"])
+    if k == "ali_set":
+        return "(OAliSet %s %s)" % ("true" if op["side"] == "start" else "false",
+                                    "None" if op["j"] is None else "(Some %s)" % nat(op["j"]))
     if k == "move":
         return "(OMove %s)" % v3(op["v"])
     if k == "move_to":
@@ -612,7 +667,11 @@ def model_init(world):
                                           coq_list([coq_list([gro_term(c) for c in res]) for res in recs[i]])))
         i = len(fam)
         fam.append("(%s, %s, HS %s)" % (nat(i), nat(i), coq_list(insts)))
-    heap = "(mkHeap %s %s %s)" % (coq_list(gro), coq_list(top), coq_list(mt))
+    nali = world.get("nali", 0)
+    for a in range(nali):
+        i = len(fam)
+        fam.append("(%s, %s, HL %s)" % (nat(i), nat(i), nat(a)))
+    heap = "(mkHeap %s %s %s %s)" % (coq_list(gro), coq_list(top), coq_list(mt), coq_list(["(None, None)"] * nali))
     return heap, coq_list(fam)
 
 
@@ -622,7 +681,7 @@ def run_case(world, ops=None, rs=None, nops=0, want_terms=True):
     Returns dict(ops, term (Coq), bad (oracle failures), kinds)."""
     fam = build_impl(world)
     orc = Oracle(fam)
-    obs = [observe(h, world) for h in fam]
+    obs = [observe(h, world, fam) for h in fam]
     obs0 = list(obs)
     steps = []
     done = []
@@ -642,7 +701,7 @@ def run_case(world, ops=None, rs=None, nops=0, want_terms=True):
             fam.append(new)
             orc.before.append(snap(new))
         orc.post(fam, op, code, s + 1)
-        now = [observe(h, world) for h in fam]
+        now = [observe(h, world, fam) for h in fam]
         delta = [(j, now[j]) for j in range(len(now)) if j >= len(obs) or now[j] != obs[j]]
         obs = now
         if want_terms:
@@ -697,6 +756,39 @@ def corpus_cases():
         {"h": 2, "op": "move", "v": [1.0, 1.0, 1.0]}, {"h": 2, "op": "set_ids", "l": [5, 6, 7]}, {"h": 3, "op": "rotate", "m": rot},
         {"h": 2, "op": "set_resids", "l": [8, 9]}, {"h": 4, "op": "set_velocities", "l": None},
         {"h": 1, "op": "handout", "i": 0}, {"h": 2, "op": "set_molname", "s": "NN"}, {"h": 1, "op": "handout", "i": 2}]
+
+
+    # witness of seeded change C18-1: a cached centre goes stale after writes that bypass Molecule.atoms_positions
+    yield "centre_after_view_writes", w, [
+        {"h": 0, "op": "index", "i": 3}, {"h": 1, "op": "set_pos", "v": [5.0, -2.0, 1.0]},
+        {"h": 0, "op": "move_to", "v": [1.0, 2.0, 3.0]}, {"h": 0, "op": "iter", "i": 0},
+        {"h": 2, "op": "set_pos", "v": [-4.0, 0.0, 2.0]}, {"h": 0, "op": "rotate", "m": rot},
+        {"h": 0, "op": "resview", "i": 0}, {"h": 3, "op": "move", "v": [0.0, 0.0, 2.5]},
+        {"h": 0, "op": "move", "v": [1.0, 1.0, 1.0]}, {"h": 3, "op": "set_positions", "l": [[0.0, 0.0, 0.0], [1.0, 0.0, 0.0]]},
+        {"h": 0, "op": "move_to", "v": [0.0, 0.0, 0.0]}, {"h": 0, "op": "copy"}, {"h": 4, "op": "index", "i": 1},
+        {"h": 5, "op": "set_pos", "v": [9.0, 9.0, 9.0]}, {"h": 4, "op": "move_to", "v": [0.0, 0.0, 0.0]}]
+    # witness of seeded change C18-2: re-assignment of Alignment.start / .end when both ends are set
+    wb = {"mols": [w["mols"][0],
+                   {"name": "MB", "atoms": [("C0", "SD", 1), ("C1", "SD", 1)], "pos": [[0, 0, 0], [0, 0, 1]], "bonds": [[0, 1]],
+                    "vel": None}], "system": None, "nali": 1}
+    d1, vel5 = [2.0, 0.0, -1.0], [[0.5, 0.0, 0.0]] * 5
+    yield "alignment_reassignment", wb, [
+        {"h": 2, "op": "ali_set", "side": "start", "j": 0}, {"h": 2, "op": "ali_set", "side": "end", "j": 0},
+        {"h": 0, "op": "move", "v": d1}, {"h": 3, "op": "rotate", "m": rot}, {"h": 4, "op": "set_ids", "l": [5, 4, 3, 2, 1]},
+        {"h": 0, "op": "copy"}, {"h": 5, "op": "move", "v": d1},
+        {"h": 2, "op": "ali_set", "side": "start", "j": 5},                      # both ends set, equal molecule: h6
+        {"h": 5, "op": "move", "v": d1}, {"h": 5, "op": "rotate", "m": rot}, {"h": 5, "op": "move_to", "v": [3.0, 3.0, 3.0]},
+        {"h": 5, "op": "set_ids", "l": [11, 12, 13, 14, 15]}, {"h": 5, "op": "set_velocities", "l": vel5},
+        {"h": 5, "op": "set_resids", "l": [7, 8]},
+        {"h": 6, "op": "move", "v": [-1.0, -1.0, -1.0]}, {"h": 6, "op": "set_ids", "l": [21, 22, 23, 24, 25]},
+        {"h": 6, "op": "set_velocities", "l": None}, {"h": 6, "op": "rotate", "m": rot},
+        {"h": 2, "op": "ali_set", "side": "end", "j": 5},                        # h7
+        {"h": 5, "op": "move", "v": d1}, {"h": 7, "op": "move_to", "v": [0.0, 0.0, 0.0]}, {"h": 7, "op": "set_ids", "l": [1, 2, 3, 4, 5]},
+        {"h": 2, "op": "ali_set", "side": "start", "j": 1},                      # another molecule: ValueError
+        {"h": 2, "op": "ali_set", "side": "start", "j": None}, {"h": 2, "op": "ali_set", "side": "start", "j": 1},   # h8
+        {"h": 2, "op": "ali_set", "side": "end", "j": 0},                        # h9 (equal to the stored end)
+        {"h": 0, "op": "move", "v": d1}, {"h": 9, "op": "move", "v": d1}, {"h": 2, "op": "ali_set", "side": "end", "j": 1},
+        {"h": 2, "op": "ali_set", "side": "start", "j": 2}, {"h": 2, "op": "ali_set", "side": "end", "j": None}]
 
 
 # ------------------------------------------------------------------ check entry points
